@@ -130,3 +130,45 @@ Fixpoint run_sops (st : seg_state) (ops : list sop) : option seg_state :=
   end.
 
 Definition is_bridge_op (o : sop) : bool := match o with SBridge _ _ => true | _ => false end.
+
+(* ------------------------------------------------------------------ client API: JunctionRef::removeJunctionAndMergeConnectors
+   (junction.cpp): a junction j with exactly two connectors is taken out by the client - one of its two connectors is deleted,
+   the other one is re-attached to the far end of the deleted one, the junction is deleted.  At the connector level the two
+   edges (j,a), (j,b) become the single edge (a,b) - for every orientation of the two connectors and whatever a and b are
+   (terminal or junction).  Written with the contraction above: j is merged into its first neighbour a, which renames the edge
+   (j,b) to (a,b).  (This is smooth1 applied to one chosen node that DOES carry a junction.)
+   remove_junction_wrong_end is the defective variant in which the surviving connector stays on the junction that is deleted:
+   the second connector (j,b) simply disappears. *)
+Definition remove_junction (j : nat) (g : graph) : option graph :=
+  if Nat.eqb (deg g j) 2 then
+    match nbr j g with
+    | None => None
+    | Some a => contract_any a j g
+    end
+  else None.
+
+Definition second_nbr (j : nat) (g : graph) : option nat :=
+  match nbr j g with
+  | None => None
+  | Some a => match remove_edge a j g with None => None | Some r => nbr j r end
+  end.
+
+Definition remove_junction_wrong_end (j : nat) (g : graph) : option graph :=
+  if Nat.eqb (deg g j) 2 then
+    match second_nbr j g with
+    | None => None
+    | Some b => remove_edge j b g
+    end
+  else None.
+
+(* histories that mix the improver's / rerouter's abstract operations with client removals of degree-2 junctions *)
+Inductive cop :=
+| CHop (o : hop)
+| CRemoveJunction (j : nat).
+
+Definition apply_cop (T : list nat) (g : graph) (o : cop) : graph :=
+  match o with
+  | CHop h => apply_hop T g h
+  | CRemoveJunction j => or_else (remove_junction j g) g
+  end.
+Definition run_cops (T : list nat) (g : graph) (ops : list cop) : graph := fold_left (apply_cop T) ops g.
